@@ -35,6 +35,7 @@ import (
 	"fmt"
 	"math"
 	"strconv"
+	"strings"
 	"time"
 
 	"github.com/lesismal/nbio/nbhttp"
@@ -71,7 +72,15 @@ type caseSpec struct {
 	Split     int       `json:"split,omitempty"`
 	ReadLimit int       `json:"read_limit,omitempty"`
 	Chunk     int       `json:"chunk,omitempty"`
-	Seg       wsgen.Seg `json:"seg"`
+	// Build: construction path of the Conn (wsgen.Cfg.Build: "" = Upgrader engine is the serving
+	// engine, "rebind" = NewUpgrader() with DefaultEngine, Conn bound to the serving engine after
+	// its construction, as Upgrade / DialContext do). Ending: deflate-stream ending of the
+	// compressed message (wsgen.EndSync / EndFinal / EndFinal0). Decomp: custom decompressor
+	// (wsgen.Cfg.Decomp).
+	Build  string    `json:"build,omitempty"`
+	Ending string    `json:"ending,omitempty"`
+	Decomp string    `json:"decomp,omitempty"`
+	Seg    wsgen.Seg `json:"seg"`
 }
 
 func (c *caseSpec) name() string {
@@ -89,6 +98,15 @@ func (c *caseSpec) name() string {
 	}
 	if c.Inflated > 0 || c.Family == "inflate" {
 		s += fmt.Sprintf(" inflated=%d content=%s level=%d split=%d", c.Inflated, c.Content, c.Level, c.Split)
+		if c.Ending != "" {
+			s += " ending=" + c.Ending
+		}
+		if c.Decomp != "" {
+			s += " decompressor=" + c.Decomp
+		}
+	}
+	if c.Build != "" {
+		s += " build=" + c.Build
 	}
 	if c.ReadLimit > 0 {
 		s += fmt.Sprintf(" readlimit=%d", c.ReadLimit)
@@ -108,12 +126,12 @@ type built struct {
 
 var deflateCache = map[string][]byte{}
 
-func deflated(content string, n, level int) []byte {
-	k := fmt.Sprintf("%s/%d/%d", content, n, level)
+func deflated(content string, n, level int, ending string) []byte {
+	k := fmt.Sprintf("%s/%d/%d/%s", content, n, level, ending)
 	if z, ok := deflateCache[k]; ok {
 		return z
 	}
-	z := wsgen.Deflate(wsgen.Content(content, n, true, 0), level)
+	z := wsgen.DeflateEnd(wsgen.Content(content, n, true, 0), level, ending)
 	if len(deflateCache) > 64 {
 		deflateCache = map[string][]byte{}
 	}
@@ -123,9 +141,9 @@ func deflated(content string, n, level int) []byte {
 
 func build(c *caseSpec) *built {
 	b := &built{}
-	comp := c.Family == "inflate"
+	comp := c.Family == "inflate" || c.Family == "upgrade-inflate"
 	if comp {
-		z := deflated(c.Content, c.Inflated, c.Level)
+		z := deflated(c.Content, c.Inflated, c.Level, c.Ending)
 		b.compLen = len(z)
 		b.msgSize = c.Inflated
 		b.via = "inflate"
@@ -183,7 +201,7 @@ func build(c *caseSpec) *built {
 		}
 	}
 	b.wire = wsgen.Encode(b.frames)
-	if c.Family == "declared" {
+	if c.Family == "declared" || c.Family == "upgrade-declared" {
 		return b // judged by feedDeclared (declared.go); the reference assembler has nothing to assemble
 	}
 	if !comp || c.Inflated <= 4*c.L+64 {
@@ -219,7 +237,7 @@ func close1009(ep *wsgen.Endpoint) (found bool, other string) {
 func feedOnce(c *caseSpec, b *built, seg wsgen.Seg, p *vkit.Part) (res, class string, r *wsgen.FeedResult) {
 	L := c.L
 	cfg := wsgen.Cfg{Client: !c.Server, Compress: c.Family == "inflate", Level: 1, L: L, Policy: c.Policy, Spy: true,
-		NoOnMessage: c.Handlers == "frame", OnDataFrame: c.Handlers != "msg", ReadLimit: c.ReadLimit}
+		NoOnMessage: c.Handlers == "frame", OnDataFrame: c.Handlers != "msg", ReadLimit: c.ReadLimit, Build: c.Build, Decomp: c.Decomp}
 	ep := wsgen.NewEndpoint(cfg)
 	held := ""
 	r = ep.Feed(b.wire.Bytes, seg, func(call int, st websocket.VerifSeqState) string {
@@ -449,7 +467,7 @@ func recvControl(c *caseSpec, p *vkit.Part) {
 	opt := wsgen.SegOpt{AllSingleMax: 2048, BytesMax: 4096}
 	onePiece := ""
 	wsgen.EachSeg(b.wire, opt, func(s wsgen.Seg) bool {
-		ep := wsgen.NewEndpoint(wsgen.Cfg{Client: !c.Server, L: c.L, Policy: c.Policy, Spy: true, RecordCtl: true})
+		ep := wsgen.NewEndpoint(wsgen.Cfg{Client: !c.Server, L: c.L, Policy: c.Policy, Spy: true, RecordCtl: true, Build: c.Build})
 		r := ep.Feed(b.wire.Bytes, s, nil)
 		p.Case(true, r.States, r.Calls)
 		p.Count("feeds_"+s.Kind, 1)
@@ -504,7 +522,7 @@ func readLimitCase(c *caseSpec, p *vkit.Part) {
 	b := build(c)
 	p.Count("bases", 1)
 	p.Count("bases_"+c.Family, 1)
-	ep := wsgen.NewEndpoint(wsgen.Cfg{Client: !c.Server, Policy: c.Policy, ReadLimit: c.ReadLimit, Spy: true})
+	ep := wsgen.NewEndpoint(wsgen.Cfg{Client: !c.Server, Policy: c.Policy, ReadLimit: c.ReadLimit, Spy: true, Build: c.Build})
 	worst := 0
 	r := ep.Feed(b.wire.Bytes, wsgen.Seg{Kind: "chunk", Chunk: c.Chunk}, func(call int, st websocket.VerifSeqState) string {
 		if st.Cached > worst {
@@ -587,6 +605,14 @@ func run(tier string, sh *vkit.Shard, p *vkit.Part) {
 		return o
 	}
 
+	// one piece + byte at a time (thorough: the full set): for dimensions that do not interact with
+	// the position of the cuts
+	lightSeg := func() wsgen.SegOpt {
+		if thorough {
+			return segFor()
+		}
+		return wsgen.SegOpt{AllSingleMax: -1, BytesMax: 4096}
+	}
 	for _, L := range limits {
 		L := L
 		// ---- A: single frames L-1, L, L+1 (and 2L)
@@ -598,6 +624,8 @@ func run(tier string, sh *vkit.Shard, p *vkit.Part) {
 						for _, h := range handlers {
 							for _, op := range []byte{wsgen.OpText, wsgen.OpBinary} {
 								runBase(&caseSpec{Family: "single", L: L, Server: server, Policy: pol, Handlers: h, Frags: []fragSpec{{Op: op, Fin: true, Len: n}}}, p, segFor())
+								// the same on a Conn created from a default Upgrader and then bound to the serving engine
+								runBase(&caseSpec{Family: "single", L: L, Server: server, Policy: pol, Handlers: h, Build: "rebind", Frags: []fragSpec{{Op: op, Fin: true, Len: n}}}, p, lightSeg())
 							}
 						}
 					}
@@ -649,6 +677,9 @@ func run(tier string, sh *vkit.Shard, p *vkit.Part) {
 									o.AllSingleMax = 2100
 								}
 								runBase(&caseSpec{Family: "fragments", L: L, Server: server, Policy: pol, Handlers: h, Frags: fr}, p, o)
+								if pol == 1 && (thorough || (h == "msg" && ping < 0)) {
+									runBase(&caseSpec{Family: "fragments", L: L, Server: server, Policy: pol, Handlers: h, Build: "rebind", Frags: fr}, p, wsgen.SegOpt{AllSingleMax: -1, BytesMax: 600})
+								}
 							}
 						}
 					}
@@ -656,7 +687,12 @@ func run(tier string, sh *vkit.Shard, p *vkit.Part) {
 			})
 		}
 		// ---- C: compressed messages
-		for _, infl := range []int{L - 1, L, L + 1, 4 * L, 1000 * L} {
+		inflSizes := map[int]bool{}
+		for _, infl := range []int{L - 1, L, L + 1, L + 2, 2 * L, 4 * L, 1000 * L} {
+			if inflSizes[infl] {
+				continue
+			}
+			inflSizes[infl] = true
 			for _, content := range []string{"zero", "utf8"} {
 				for _, level := range []int{1, 9} {
 					infl, content, level := infl, content, level
@@ -666,12 +702,64 @@ func run(tier string, sh *vkit.Shard, p *vkit.Part) {
 								for _, h := range []string{"msg", "both"} {
 									for _, parts := range []int{1, 2} {
 										runBase(&caseSpec{Family: "inflate", L: L, Server: server, Policy: pol, Handlers: h, Inflated: infl, Content: content, Level: level, Split: parts}, p, segFor())
+										if level == 1 {
+											runBase(&caseSpec{Family: "inflate", L: L, Server: server, Policy: pol, Handlers: h, Build: "rebind", Inflated: infl, Content: content, Level: level, Split: parts}, p, lightSeg())
+										}
 									}
 								}
 							}
 						}
 					})
 				}
+				// ---- C': how the deflate stream ends and how the decompressor hands out its last
+				// bytes: sync flush with the tail removed (above), a final block (BFINAL=1, RFC 7692
+				// 7.2.3.4) with and without the trailing 00 octet; stored blocks (level 0), Huffman only
+				// (-2), fixed/dynamic Huffman with matches (1, 9); nbio's flate reader, a decompressor
+				// that returns the last bytes together with io.EOF, one that returns a byte per Read
+				infl, content := infl, content
+				item(fmt.Sprintf("inflate-endings L=%d inflated=%d %s", L, infl, content), func() {
+					type variant struct {
+						ending, decomp string
+						level          int
+					}
+					var vs []variant
+					bomb := infl > 2*L
+					for _, level := range []int{-2, 0, 1, 9} {
+						if bomb && level != 1 && !thorough {
+							continue // quick: the bombs (4L, 1000L) end with a final block at level 1 only
+						}
+						if level <= 0 && infl > 4*L {
+							continue // (no bomb without matches: the wire would be as long as the message)
+						}
+						vs = append(vs, variant{wsgen.EndFinal, "", level})
+						if level == 1 || thorough {
+							vs = append(vs, variant{wsgen.EndFinal0, "", level})
+						}
+						if level <= 0 {
+							vs = append(vs, variant{wsgen.EndSync, "", level})
+						}
+					}
+					for _, decomp := range []string{"eofdata", "onebyte"} {
+						for _, ending := range []string{wsgen.EndSync, wsgen.EndFinal} {
+							vs = append(vs, variant{ending, decomp, 1})
+						}
+					}
+					for _, v := range vs {
+						for _, server := range roles {
+							for _, pol := range policies {
+								for _, h := range []string{"msg", "both"} {
+									if !thorough && h == "both" && v.decomp == "" && v.level != 1 {
+										continue
+									}
+									for _, parts := range []int{1, 2} {
+										runBase(&caseSpec{Family: "inflate", L: L, Server: server, Policy: pol, Handlers: h, Inflated: infl, Content: content,
+											Level: v.level, Split: parts, Ending: v.ending, Decomp: v.decomp}, p, lightSeg())
+									}
+								}
+							}
+						}
+					}
+				})
 			}
 		}
 		// ---- D: control frames of 125 / 126 bytes on receive (alone and inside a fragmented message)
@@ -681,10 +769,15 @@ func run(tier string, sh *vkit.Shard, p *vkit.Part) {
 				item(fmt.Sprintf("recv-control L=%d op=%x n=%d", L, op, n), func() {
 					for _, server := range roles {
 						for _, pol := range []int{0, 1} {
-							class := "ramp"
-							recvControl(&caseSpec{Family: "recv-control", L: L, Server: server, Policy: pol, Handlers: "msg", Frags: []fragSpec{{Op: op, Fin: true, Len: n, Class: class}}}, p)
-							recvControl(&caseSpec{Family: "recv-control-in-message", L: L, Server: server, Policy: pol, Handlers: "msg",
-								Frags: []fragSpec{{Op: wsgen.OpBinary, Len: 1}, {Op: op, Fin: true, Len: n, Class: class}}}, p)
+							for _, bld := range []string{"", "rebind"} {
+								if bld != "" && pol == 0 && !thorough {
+									continue
+								}
+								class := "ramp"
+								recvControl(&caseSpec{Family: "recv-control", L: L, Server: server, Policy: pol, Handlers: "msg", Build: bld, Frags: []fragSpec{{Op: op, Fin: true, Len: n, Class: class}}}, p)
+								recvControl(&caseSpec{Family: "recv-control-in-message", L: L, Server: server, Policy: pol, Handlers: "msg", Build: bld,
+									Frags: []fragSpec{{Op: wsgen.OpBinary, Len: 1}, {Op: op, Fin: true, Len: n, Class: class}}}, p)
+							}
 						}
 					}
 				})
@@ -693,6 +786,8 @@ func run(tier string, sh *vkit.Shard, p *vkit.Part) {
 	}
 	// ---- A': frames refused on their declared length alone (declared.go)
 	declaredItems(thorough, item, p)
+	// ---- U: connections that come out of the real Upgrader.Upgrade on a real engine (upgrade.go)
+	upgradeItems(thorough, item, p)
 	// ---- D': send side
 	item("send-control", func() {
 		for _, server := range roles {
@@ -714,15 +809,19 @@ func run(tier string, sh *vkit.Shard, p *vkit.Part) {
 				item(fmt.Sprintf("read-limit rl=%d chunk=%d n=%d", rl, chunk, n), func() {
 					for _, server := range roles {
 						for _, pol := range []int{0, 1} {
-							readLimitCase(&caseSpec{Family: "read-limit", Server: server, Policy: pol, Handlers: "msg", ReadLimit: rl, Chunk: chunk,
-								Frags: []fragSpec{{Op: wsgen.OpBinary, Fin: true, Len: n}}}, p)
-							// many small frames never trip the limit
-							var fr []fragSpec
-							for i := 0; i < 40; i++ {
-								fr = append(fr, fragSpec{Op: wsgen.OpBinary, Fin: true, Len: 20})
-							}
-							if n == 10 {
-								readLimitCase(&caseSpec{Family: "read-limit-small-frames", Server: server, Policy: pol, Handlers: "msg", ReadLimit: rl, Chunk: chunk, Frags: fr}, p)
+							// the read limit is configured on the serving engine only (nbhttp.Config.ReadLimit),
+							// the way a user does; with build=rebind the Upgrader keeps DefaultEngine (64 MiB)
+							for _, bld := range []string{"", "rebind"} {
+								readLimitCase(&caseSpec{Family: "read-limit", Server: server, Policy: pol, Handlers: "msg", ReadLimit: rl, Chunk: chunk, Build: bld,
+									Frags: []fragSpec{{Op: wsgen.OpBinary, Fin: true, Len: n}}}, p)
+								// many small frames never trip the limit
+								var fr []fragSpec
+								for i := 0; i < 40; i++ {
+									fr = append(fr, fragSpec{Op: wsgen.OpBinary, Fin: true, Len: 20})
+								}
+								if n == 10 {
+									readLimitCase(&caseSpec{Family: "read-limit-small-frames", Server: server, Policy: pol, Handlers: "msg", ReadLimit: rl, Chunk: chunk, Build: bld, Frags: fr}, p)
+								}
 							}
 						}
 					}
@@ -752,6 +851,13 @@ func replay(scenario string, input json.RawMessage) string {
 	}
 	part := &vkit.Part{Counters: map[string]int{}, Outcomes: map[string]int{}}
 	fmt.Printf("case %s seg=%+v\n", c.name(), c.Seg)
+	if strings.HasPrefix(c.Family, "upgrade-") {
+		upgradeCase(&c, part, []wsgen.Seg{c.Seg})
+		if len(part.Findings) > 0 {
+			return part.Findings[0].Sig + "|" + part.Findings[0].Desc
+		}
+		return ""
+	}
 	switch c.Family {
 	case "recv-control", "recv-control-in-message":
 		recvControl(&c, part)
